@@ -18,7 +18,7 @@ def schedules(seed, tier, mc):
             if key in seen:
                 continue
             seen.add(key)
-            stims.append({'class': 'tlc_schedule', 'limit': r['limit'], 'calls': r['calls'], 'steps': r['steps'], 'tick_ms': 100})
+            stims.append({'class': 'tlc_schedule', 'limit': r['limit'], 'srv': r['srv'], 'srv_timeout_ticks': r['srv'], 'calls': r['calls'], 'steps': r['steps'], 'tick_ms': 100})
     if len(stims) < 20:
         raise ToolError(f'Gen_Admission: only {len(stims)} schedules exported')
     return stims
